@@ -5,7 +5,7 @@ import json, os, random, re, shutil, sys, time
 sys.path.insert(0, os.path.dirname(os.path.abspath(__file__)))
 import vlib, fam
 
-CLAUSES = ["NoHang", "UnloadRefused", "Result", "State", "Members", "StartOnce", "TermOnce", "TermReason", "StartMode", "MembersInOrder", "DepsFirst", "NoOrphan"]
+CLAUSES = ["NoHang", "UnloadRefused", "StartNeedsDeps", "Result", "State", "Members", "StartOnce", "TermOnce", "TermReason", "StartMode", "MembersInOrder", "DepsFirst", "NoOrphan"]
 MODES = ["temp", "trans", "perm"]
 REASONS = ["normal", "shutdown", "abn", "kill"]
 
@@ -20,6 +20,7 @@ def histories(tier, rng):
     def F(i, r): return {"op": "fault", "i": i, "reason": r}
     def F2(i, r, j, r2): return {"op": "fault2", "i": i, "reason": r, "j": j, "reason2": r2}
     def SU(j): return {"op": "stopunload", "j": j}
+    DSS = {"op": "depstopstart"}
     for mode in MODES:
         for n in (1, 2, 3):
             # every member x every reason, then the state must allow a restart
@@ -49,6 +50,11 @@ def histories(tier, rng):
         for n in (1, 2, 3):
             add(n, mode, 0, False, [L, S(), SU(n), S(), ST, U])
             add(n, mode, 0, False, [L, S(), SU(1), U, L, S(), SF])
+    # the application is started while its dependency is on its way down (a member keeps that stop in progress)
+    for mode in MODES:
+        for n in (1, 2):
+            add(n, mode, 0, True, [L, S(), ST, DSS, S(), ST, U])
+            add(n, mode, 0, True, [L, S(), DSS, ST, S(), DSS, SF])
     add(2, "temp", 0, False, [S(), ST, U, L, U, L, S(), U, ST, U])
     for _ in range(40 if tier == "quick" else 1600):
         n = rng.choice([1, 2, 3, 4]); mode = rng.choice(MODES)
@@ -60,6 +66,7 @@ def histories(tier, rng):
             elif c < 0.65: ops.append(F2(rng.randint(1, n), rng.choice(REASONS), rng.randint(1, n), rng.choice(["abn2", "normal", "shutdown"])))
             elif c < 0.76: ops.append(ST)
             elif c < 0.8: ops.append(SU(rng.randint(1, n)))
+            elif c < 0.83: ops.append(DSS)
             elif c < 0.9: ops.append(SF)
             elif c < 0.95: ops.append(U)
             else: ops.append(L)
